@@ -43,6 +43,9 @@ Definition kw_reject : text := str "reject".
 Definition kw_drop : text := str "drop".
 Definition svc_unreach : text := str "unreach".
 Definition problem_rejected : text := str "blocked by firewall".
+Definition svc_ping : text := str "ping".
+Definition problem_service_unknown : text := str "service unknown".
+Definition problem_expired : text := str "message expired".
 
 (* the FirewallRule struct *)
 Record frule := mkF { f_action : text; f_fromnode : text; f_tonode : text;
@@ -211,6 +214,17 @@ Definition notice_pkt (self : text) (u : unreach_msg) : pkt :=
   mkPkt self svc_unreach (u_fromnode u) svc_unreach.
 
 Inductive chain_out := Delivered | Silent | Notified (by_node : text).
+Inductive ping_out := PingReply | PingBlocked | PingSilence.
+
+(* AddFirewallRules(rules, clearExisting) *)
+Definition install {A} (cur : list A) (new : list A) (clear : bool) : list A :=
+  if clear then new else cur ++ new.
+
+Fixpoint install_all {A} (cur : list A) (h : list (list A * bool)) : list A :=
+  match h with
+  | [] => cur
+  | (new, clear) :: rest => install_all (install cur new clear) rest
+  end.
 
 Section Eval.
   Variable rematch : re -> text -> bool.     (* [full] now, [hist_match] in the pinned tree *)
@@ -265,6 +279,45 @@ Section Eval.
   Definition passes_with (rules : list prule) (p : pkt) : bool :=
     match handle_with rules p with DProceed => true | _ => false end.
 
+  (* any other notice the node originates (sendUnreachable): through the same rules *)
+  Definition emit_with (self : text) (rules : list prule) (u : unreach_msg) : list (pkt * option unreach_msg) :=
+    let np := notice_pkt self u in
+    if passes_with rules np then [(np, Some u)] else [].
+
+  (* handleMessageData to the end, for a packet that is not a local ping-to-self: after the
+     firewall the packet is delivered (listener / reserved service "unreach"), answered (reserved
+     service "ping": the reply is a packet this node originates), refused with "service unknown"
+     (no listener), forwarded, or expired (no hops left) — and every packet the node originates on
+     the way goes through the rules again.  [listening]: a listener for ToService exists here;
+     [hops]: HopsToLive > 0. *)
+  Definition node_full_with (self : text) (rules : list prule) (p : pkt) (listening hops : bool)
+    : list (pkt * option unreach_msg) :=
+    match handle_with rules p with
+    | DProceed =>
+      let u problem := mkU (p_fromnode p) (p_tonode p) (p_fromservice p) (p_toservice p) problem in
+      if beq_text (p_tonode p) self then
+        if beq_text (p_toservice p) svc_ping
+        then node_handle_with self rules (mkPkt self svc_ping (p_fromnode p) (p_fromservice p))
+        else if beq_text (p_toservice p) svc_unreach then [(p, None)]
+        else if listening then [(p, None)]
+        else if beq_text (p_fromnode p) self then []            (* an error to the local sender *)
+        else emit_with self rules (u problem_service_unknown)
+      else if hops then [(p, None)]
+      else if beq_text (p_fromservice p) svc_unreach then []
+      else emit_with self rules (u problem_expired)
+    | _ => node_handle_with self rules p
+    end.
+
+  (* "receptorctl ping <self>" on a node: request self:eph -> self:ping, reply self:ping -> self:eph;
+     the pinger hears notices about packets from self:eph only *)
+  Definition ping_self_with (self eph : text) (rules : list prule) : ping_out :=
+    let req := mkPkt self eph self svc_ping in
+    match handle_with rules req with
+    | DProceed => if passes_with rules (mkPkt self svc_ping self eph) then PingReply else PingSilence
+    | DReject (Some u) => if passes_with rules (notice_pkt self u) then PingBlocked else PingSilence
+    | _ => PingSilence
+    end.
+
   (* a line of nodes: [p] enters at the first node of [rest] and travels to the last one, which
      is its destination; [visited] are the nodes already passed, nearest first (the way back) *)
   Fixpoint chain_with (visited rest : list (text * list prule)) (p : pkt) : chain_out :=
@@ -289,6 +342,9 @@ Definition eval_hist := eval_with hist_match.
 Definition handle := handle_with full.
 Definition node_handle := node_handle_with full.
 Definition passes := passes_with full.
+Definition emit := emit_with full.
+Definition node_full := node_full_with full.
+Definition ping_self := ping_self_with full.
 Definition chain := chain_with full.
 
 (* ---------- specification vocabulary (used by Props/C12.v) ---------- *)
@@ -436,11 +492,20 @@ Inductive fw_case :=
 | CParse (tbl : table) (rules : list raw_rule) (o : parse_obs)
          (pk : list (pkt * list fwresult))
          (* real nodes [self] with these rules installed handle [p]: what leaves the firewall *)
-         (nd : list (text * pkt * list (pkt * option unreach_msg)))
+         (nd : list (text * pkt * (bool * bool) * list (pkt * option unreach_msg)))
 (* a line of real nodes, each with its own rules; [p] is sent by the first to the last *)
 | CChain (tbl : table) (nodes : list (text * list raw_rule)) (p : pkt) (o : chain_out)
 (* the receptor binary started with "node: firewallrules: [...]": did it come up? *)
-| CConfig (tbl : table) (rules : list raw_rule) (started : bool).
+| CConfig (tbl : table) (rules : list raw_rule) (started : bool)
+(* a history of AddFirewallRules(rules, clearExisting) calls on one real node, then packets *)
+| CHist (tbl : table) (h : list (list raw_rule * bool)) (self : text)
+        (nd : list (pkt * list (pkt * option unreach_msg)))
+(* rule sets A and B are installed alternately (clearExisting) while the packet is handled: the
+   outcome is that of A or that of B, never a mixture *)
+| CEither (tbl : table) (a b : list raw_rule) (self : text) (p : pkt)
+          (out : list (pkt * option unreach_msg))
+(* the receptor binary running with these rules is asked to ping itself *)
+| CPing (tbl : table) (rules : list raw_rule) (self eph : text) (o : ping_out).
 
 Fixpoint parse_nodes (pr : (text -> option re) -> list raw_rule -> pres (list prule))
          (gp : text -> option re) (nodes : list (text * list raw_rule))
@@ -454,6 +519,24 @@ Fixpoint parse_nodes (pr : (text -> option re) -> list raw_rule -> pres (list pr
     end
   end.
 
+Fixpoint parse_hist (pr : (text -> option re) -> list raw_rule -> pres (list prule))
+         (gp : text -> option re) (h : list (list raw_rule * bool))
+  : option (list (list prule * bool)) :=
+  match h with
+  | [] => Some []
+  | (raw, clear) :: rest =>
+    match pr gp raw, parse_hist pr gp rest with
+    | POk rs, Some l => Some ((rs, clear) :: l)
+    | _, _ => None
+    end
+  end.
+
+Definition beq_ping (a b : ping_out) : bool :=
+  match a, b with
+  | PingReply, PingReply | PingBlocked, PingBlocked | PingSilence, PingSilence => true
+  | _, _ => false
+  end.
+
 Definition fw_check_with (pr : (text -> option re) -> list raw_rule -> pres (list prule))
            (rm : re -> text -> bool) (c : fw_case) : bool :=
   match c with
@@ -461,7 +544,8 @@ Definition fw_check_with (pr : (text -> option re) -> list raw_rule -> pres (lis
     match pr (lookup tbl) rules, o with
     | POk rs, ObsOk =>
       forallb (fun x => beq_list beq_res (map (fun r => rule_fn_with rm r (fst x)) rs) (snd x)) pk
-      && forallb (fun x => beq_list beq_out (node_handle_with rm (fst (fst x)) rs (snd (fst x))) (snd x)) nd
+      && forallb (fun x => let '(self, p, (listening, hops), out) := x in
+                           beq_list beq_out (node_full_with rm self rs p listening hops) out) nd
     | PErr _, ObsErr => true
     | PPanic, ObsPanic => true
     | _, _ => false
@@ -470,6 +554,24 @@ Definition fw_check_with (pr : (text -> option re) -> list raw_rule -> pres (lis
     match parse_nodes pr (lookup tbl) nodes with
     | Some ns => beq_chain (chain_with rm [] ns p) o
     | None => false
+    end
+  | CHist tbl h self nd =>
+    match parse_hist pr (lookup tbl) h with
+    | Some hs =>
+      let rs := install_all [] hs in
+      forallb (fun x => beq_list beq_out (node_handle_with rm self rs (fst x)) (snd x)) nd
+    | None => false
+    end
+  | CEither tbl a b self p out =>
+    match pr (lookup tbl) a, pr (lookup tbl) b with
+    | POk ra, POk rb => beq_list beq_out (node_handle_with rm self ra p) out
+                        || beq_list beq_out (node_handle_with rm self rb p) out
+    | _, _ => false
+    end
+  | CPing tbl rules self eph o =>
+    match pr (lookup tbl) rules with
+    | POk rs => beq_ping (ping_self_with rm self eph rs) o
+    | _ => false
     end
   | CConfig tbl rules started =>
     match pr (lookup tbl) rules with
